@@ -164,6 +164,21 @@ func TestWorker(t *testing.T) {
 	verbose := os.Getenv("VERIF_VERBOSE") != ""
 	startWatchdog()
 
+	known := map[string]bool{}
+	if kp := os.Getenv("VERIF_KNOWN"); kp != "" {
+		if b, err := os.ReadFile(kp); err == nil {
+			var kf KnownFindings
+			if json.Unmarshal(b, &kf) == nil {
+				for _, k := range kf.Known {
+					if k.Property == propID {
+						known[k.Fingerprint] = true
+						KnownFingerprints[k.Fingerprint] = true
+					}
+				}
+			}
+		}
+	}
+
 	if rp := os.Getenv("VERIF_REPLAY"); rp != "" {
 		watchdogTicks = 8 // one run: 40 s without progress is a hang
 		replayMode(t, prop, rp, verbose)
@@ -183,21 +198,6 @@ func TestWorker(t *testing.T) {
 	worker := envInt("VERIF_WORKER", 0)
 	budget := time.Duration(envInt("VERIF_BUDGET_MS", 5000)) * time.Millisecond
 	maxRuns := envInt("VERIF_MAXRUNS", 1<<30)
-	known := map[string]bool{}
-	if kp := os.Getenv("VERIF_KNOWN"); kp != "" {
-		if b, err := os.ReadFile(kp); err == nil {
-			var kf KnownFindings
-			if json.Unmarshal(b, &kf) == nil {
-				for _, k := range kf.Known {
-					if k.Property == propID {
-						known[k.Fingerprint] = true
-						KnownFingerprints[k.Fingerprint] = true
-					}
-				}
-			}
-		}
-	}
-
 	res := WorkerResult{Property: propID, Rule: prop.Rule, Worker: worker, Stats: map[string]int{}, Known: map[string]int{}, KnownSeeds: map[string]uint64{}}
 	states := map[string]bool{}
 	seen := map[uint64]bool{}
@@ -429,6 +429,8 @@ func replayMode(t *testing.T, prop *Property, path string, verbose bool) {
 	if tier == "" {
 		tier = "quick"
 	}
+	// known findings met on the way are passed over, as in the batch - except the one this file is about
+	delete(KnownFingerprints, rf.Fingerprint)
 	chooser := NewReplayChooser(rf.Decisions)
 	if rf.Generate {
 		chooser = NewChooser(rf.Seed)
@@ -441,6 +443,9 @@ func replayMode(t *testing.T, prop *Property, path string, verbose bool) {
 	}
 	if o.Viol == nil {
 		fmt.Printf("REPLAY clean trace=%x\n", o.TraceHash)
+		for fp, n := range o.KnownHits {
+			fmt.Printf("REPLAY passed over known finding %s (%d times)\n", fp, n)
+		}
 		return
 	}
 	fmt.Printf("REPLAY fingerprint=%s trace=%x same_trace=%v\n", o.Viol.Fingerprint, o.TraceHash, o.TraceHash == rf.TraceHash)
